@@ -194,8 +194,16 @@ class _BaseLayout(MaildirLayout[_MaildirT], metaclass=ABCMeta):
         return [self._join(sub_parts, delimiter)
                 for sub_parts in self._list_folders(parts)]
 
+    @classmethod
+    def _is_folder(cls, path: str) -> bool:
+        # The marker file is created last, so a folder whose creation was
+        # interrupted does not have it yet.
+        return os.path.isfile(os.path.join(path, 'maildirfolder'))
+
     def get_folder(self, name: str, delimiter: str) -> _MaildirT:
         path = self.get_path(name, delimiter)
+        if self._split(name, delimiter) and not self._is_folder(path):
+            raise FileNotFoundError(path)
         try:
             return self._maildir(path, create=False)
         except NoSuchMailboxError as exc:
@@ -210,7 +218,10 @@ class _BaseLayout(MaildirLayout[_MaildirT], metaclass=ABCMeta):
                 parent_name = self._join(parent_parts, delimiter)
                 self.add_folder(parent_name, delimiter)
         path = self._get_path(parts)
-        self._maildir(path, create=True)
+        if self._is_folder(path):
+            raise FileExistsError(path)
+        for subdir in ('', 'tmp', 'new', 'cur'):
+            os.makedirs(os.path.join(path, subdir), exist_ok=True)
         maildirfolder = os.path.join(path, 'maildirfolder')
         with open(maildirfolder, 'x'):
             pass
@@ -288,7 +299,7 @@ class DefaultLayout(_BaseLayout[_MaildirT]):
                 pass
             elif not subdir or elem.startswith(subdir + '.'):
                 elem_path = os.path.join(self._path, elem)
-                if os.path.isdir(elem_path):
+                if self._is_folder(elem_path):
                     yield self._get_parts(elem)
 
     def _rename_folder(self, source_parts: _Parts, dest_parts: _Parts) -> None:
@@ -333,7 +344,8 @@ class FilesystemLayout(_BaseLayout[_MaildirT]):
         path = self._get_path(parts)
         if not os.path.isdir(path):
             return
-        yield parts
+        if not parts or self._is_folder(path):
+            yield parts
         for elem in os.listdir(path):
             if elem not in ('new', 'cur', 'tmp'):
                 for sub_parts in self._list_folders(list(parts) + [elem]):
